@@ -221,6 +221,7 @@ func dhcpScenario(c nicCfg, sseed uint64) (cases []dhcpCase, bad []string) {
 	defer func() { go s.Close() }()
 	h, file := dhcpHandler(s, c)
 	defer func() { h.Close(); os.Remove(file) }()
+	setLevels(levelOf("dhcp-scenario", c.toks())) // the level is a function of the configuration: the replay uses the same
 	seed := strconv.Itoa(rng.Intn(256))
 	// State carried through the shared pool: two scenarios out of three start with refused sends of every kind
 	// (one refusal theorem each) on this session, and the pool is not emptied between the steps (keepPool): the
@@ -487,19 +488,19 @@ func registerPaths(r *lib.Run) {
 			dh, _ = dhcpHandler(s, nicCfg{hostIP: s.NICInfo.HostAddr4.IP, routerIP: s.NICInfo.RouterAddr4.IP})
 		}
 	}
-	r.Register("rs", func(a []string) string {
+	reg(r, "rs", func(a []string) string {
 		c, a := cfgOf(a)
-		return withCfg(c, atoi(a[0]), func(s *packet.Session) { s.ICMP6SendRouterSolicitation() })
+		return withCfg(c, atoi(a[0]), func(s *packet.Session) { keep(s.ICMP6SendRouterSolicitation()) })
 	})
-	r.Register("ra", func(a []string) string {
+	reg(r, "ra", func(a []string) string {
 		c, a := cfgOf(a)
 		ra := parseRA(a[2], a[3])
 		return withCfg(c, atoi(a[4]), func(s *packet.Session) {
-			s.ICMP6SendRouterAdvertisement(ra.prefixes, ra.rdnss, packet.Addr{MAC: tokMAC(a[0]), IP: tokIP(a[1])})
+			keep(s.ICMP6SendRouterAdvertisement(ra.prefixes, ra.rdnss, packet.Addr{MAC: tokMAC(a[0]), IP: tokIP(a[1])}))
 		})
 	})
 	// purge6 <cfg> hostmac hostip6 id seed : the IPv6 probe of purge for an online, stale IPv6 host
-	r.Register("purge6", func(a []string) string {
+	reg(r, "purge6", func(a []string) string {
 		c, a := cfgOf(a)
 		mac, ip := tokMAC(a[0]), tokIP(a[1])
 		s, cn := lib.NewSessionWith(c.nic())
@@ -527,28 +528,28 @@ func registerPaths(r *lib.Run) {
 		return showFrames(mine)
 	})
 	arpKind := func(kind string, call func(h *arp_spoofer.Handler, a []string)) {
-		r.Register(kind, func(a []string) string {
+		reg(r, kind, func(a []string) string {
 			c, a := cfgOf(a)
 			return withCfg(c, atoi(a[len(a)-1]), func(s *packet.Session) { call(arpHandler(s), a) })
 		})
 	}
 	ad := func(a []string, i int) packet.Addr { return packet.Addr{MAC: tokMAC(a[i]), IP: tokIP(a[i+1])} }
-	arpKind("arpraw", func(h *arp_spoofer.Handler, a []string) { h.RequestRaw(tokMAC(a[0]), ad(a, 1), ad(a, 3)) })
-	arpKind("arpreply", func(h *arp_spoofer.Handler, a []string) { h.Reply(tokMAC(a[0]), ad(a, 1), ad(a, 3)) })
-	arpKind("arpreq", func(h *arp_spoofer.Handler, a []string) { h.Request(tokIP(a[0])) })
-	arpKind("arpprobe", func(h *arp_spoofer.Handler, a []string) { h.Probe(tokIP(a[0])) })
-	arpKind("arpreqto", func(h *arp_spoofer.Handler, a []string) { h.RequestTo(tokMAC(a[0]), tokIP(a[1])) })
-	arpKind("arpannounce", func(h *arp_spoofer.Handler, a []string) { h.AnnounceTo(tokMAC(a[0]), tokIP(a[1])) })
-	r.Register("huntstart", func(a []string) string {
+	arpKind("arpraw", func(h *arp_spoofer.Handler, a []string) { keep(h.RequestRaw(tokMAC(a[0]), ad(a, 1), ad(a, 3))) })
+	arpKind("arpreply", func(h *arp_spoofer.Handler, a []string) { keep(h.Reply(tokMAC(a[0]), ad(a, 1), ad(a, 3))) })
+	arpKind("arpreq", func(h *arp_spoofer.Handler, a []string) { keep(h.Request(tokIP(a[0]))) })
+	arpKind("arpprobe", func(h *arp_spoofer.Handler, a []string) { keep(h.Probe(tokIP(a[0]))) })
+	arpKind("arpreqto", func(h *arp_spoofer.Handler, a []string) { keep(h.RequestTo(tokMAC(a[0]), tokIP(a[1]))) })
+	arpKind("arpannounce", func(h *arp_spoofer.Handler, a []string) { keep(h.AnnounceTo(tokMAC(a[0]), tokIP(a[1]))) })
+	reg(r, "huntstart", func(a []string) string {
 		c, a := cfgOf(a)
 		return hunt(c, tokMAC(a[0]), tokIP(a[1]), false)
 	})
-	r.Register("huntstop", func(a []string) string {
+	reg(r, "huntstop", func(a []string) string {
 		c, a := cfgOf(a)
 		return hunt(c, tokMAC(a[0]), tokIP(a[1]), true)
 	})
 	// arpspoofreply <cfg> clientmac clientip seed : hunted client asks who has the router IP
-	r.Register("arpspoofreply", func(a []string) string {
+	reg(r, "arpspoofreply", func(a []string) string {
 		c, a := cfgOf(a)
 		mac, ip := tokMAC(a[0]), tokIP(a[1])
 		s, cn := lib.NewSessionWith(c.nic())
@@ -573,7 +574,7 @@ func registerPaths(r *lib.Run) {
 		}
 		return showFrames(mine)
 	})
-	r.Register("discover", func(a []string) string {
+	reg(r, "discover", func(a []string) string {
 		if strings.HasPrefix(a[len(a)-1], "scn:") { // a DISCOVER of the burst of a DHCP scenario
 			return replayDHCP("discover", a)
 		}
@@ -595,7 +596,7 @@ func registerPaths(r *lib.Run) {
 		for try := 0; try < tries; try++ { // map iteration order of the options: repeat until it is the recorded one
 			obs = withCfg(c, atoi(a[5]), func(s *packet.Session) {
 				handlers(s)
-				dh.SendDiscoverPacket(ch, tokIP(a[1]), xid, name)
+				keep(dh.SendDiscoverPacket(ch, tokIP(a[1]), xid, name))
 			})
 			if obs == "none" || obs == "panic" {
 				break
@@ -611,18 +612,18 @@ func registerPaths(r *lib.Run) {
 	})
 	for _, k := range []string{"dhcpreply", "decline", "release"} {
 		k := k
-		r.Register(k, func(a []string) string { return replayDHCP(k, a) })
+		reg(r, k, func(a []string) string { return replayDHCP(k, a) })
 	}
-	r.Register("mdnsq", func(a []string) string {
+	reg(r, "mdnsq", func(a []string) string {
 		c, a := cfgOf(a)
-		return withCfg(c, 0, func(s *packet.Session) { handlers(s); dn.SendMDNSQuery(string(lib.UnHex(a[0]))) })
+		return withCfg(c, 0, func(s *packet.Session) { handlers(s); keep(dn.SendMDNSQuery(string(lib.UnHex(a[0])))) })
 	})
-	r.Register("llmnrq", func(a []string) string {
+	reg(r, "llmnrq", func(a []string) string {
 		c, a := cfgOf(a)
-		return withCfg(c, 0, func(s *packet.Session) { handlers(s); dn.SendLLMNRQuery(string(lib.UnHex(a[0]))) })
+		return withCfg(c, 0, func(s *packet.Session) { handlers(s); keep(dn.SendLLMNRQuery(string(lib.UnHex(a[0])))) })
 	})
 	// sleepproxy <cfg> smac sip dmac dip port payload : the payload (dnsmessage.Pack output) is what was sent
-	r.Register("sleepproxy", func(a []string) string {
+	reg(r, "sleepproxy", func(a []string) string {
 		c, a := cfgOf(a)
 		return withCfg(c, 0, func(s *packet.Session) {
 			handlers(s)
@@ -630,20 +631,20 @@ func registerPaths(r *lib.Run) {
 			dn.SendSleepProxyResponse(ad(a, 0), packet.Addr{MAC: tokMAC(a[2]), IP: tokIP(a[3]), Port: uint16(atoi(a[4]))}, uint16(pl[0])<<8|uint16(pl[1]), "")
 		})
 	})
-	r.Register("nbnsq", func(a []string) string {
+	reg(r, "nbnsq", func(a []string) string {
 		c, a := cfgOf(a)
 		return withCfg(c, atoi(a[6]), func(s *packet.Session) {
 			handlers(s)
-			dn.SendNBNSQuery(ad(a, 0), ad(a, 2), string(lib.UnHex(a[5])))
+			keep(dn.SendNBNSQuery(ad(a, 0), ad(a, 2), string(lib.UnHex(a[5]))))
 		})
 	})
-	r.Register("nbnsstat", func(a []string) string {
+	reg(r, "nbnsstat", func(a []string) string {
 		c, a := cfgOf(a)
-		return withCfg(c, atoi(a[1]), func(s *packet.Session) { handlers(s); dn.SendNBNSNodeStatus() })
+		return withCfg(c, atoi(a[1]), func(s *packet.Session) { handlers(s); keep(dn.SendNBNSNodeStatus()) })
 	})
-	r.Register("ssdp", func(a []string) string {
+	reg(r, "ssdp", func(a []string) string {
 		c, a := cfgOf(a)
-		return withCfg(c, atoi(a[0]), func(s *packet.Session) { handlers(s); dn.SendSSDPSearch() })
+		return withCfg(c, atoi(a[0]), func(s *packet.Session) { handlers(s); keep(dn.SendSSDPSearch()) })
 	})
 }
 
